@@ -33,6 +33,7 @@ func main() {
 	expect := flag.String("expect", "", "self-test: obligation-key globs (|| separated) one of which must newly fail; empty = any new failure")
 	selfOut := flag.String("selftest-out", "", "self-test: append the result of this variant (JSON line) to this file")
 	selfIn := flag.String("selftest-in", "", "thorough: merge self-test results from this file into the evidence")
+	genErrors := flag.Bool("gen-errors", false, "maintenance: write the error-report reference table (errors.json) from the current tree")
 	genNames := flag.Bool("gen-names", false, "maintenance: write the frozen parameter/local name table (names.json) from the current tree")
 	flag.Parse()
 
@@ -40,6 +41,7 @@ func main() {
 	if s := os.Getenv("VERIF_SEED"); s != "" {
 		seed, _ = strconv.Atoi(s)
 	}
+	props.VerifDir = *verif
 	cfg := ir.Config{Dir: *repo}
 	if *overlay != "" {
 		cfg.Overlay = map[string][]byte{}
@@ -117,7 +119,8 @@ func main() {
 					r.Undecided("anchor", "unresolved", "-", fmt.Sprint(e))
 				}
 			}()
-			fn(p, r)
+			_ = fn
+			props.RunProperty(*prop, p, r)
 		}()
 		known, _ := report.LoadKnown(filepath.Join(*verif, "known_findings.json"))
 		newKeys := r.NewFailures(known)
@@ -151,6 +154,15 @@ func main() {
 		fmt.Fprintln(os.Stderr, "lkcheck: load failed:", err)
 		os.Exit(2)
 	}
+	if *genErrors {
+		n, err := props.GenErrorTable(p, *verif)
+		if err != nil {
+			fmt.Fprintln(os.Stderr, "lkcheck:", err)
+			os.Exit(2)
+		}
+		fmt.Printf("errors.json written (%d reported call sites)\n", n)
+		return
+	}
 	if *genNames {
 		if err := p.WriteNames(filepath.Join(*verif, "names.json")); err != nil {
 			fmt.Fprintln(os.Stderr, "lkcheck:", err)
@@ -167,6 +179,22 @@ func main() {
 	if len(p.Pkgs) < 85 {
 		fmt.Fprintf(os.Stderr, "lkcheck: only %d module packages loaded (floor 85)\n", len(p.Pkgs))
 		os.Exit(2)
+	}
+	if os.Getenv("LKCHECK_CENSUS") != "" {
+		files := map[string]bool{}
+		for _, f := range strings.Split(os.Getenv("LKCHECK_CENSUS"), ",") {
+			files[f] = true
+		}
+		res := props.ErrorCensus(p, files)
+		for cls, xs := range res {
+			fmt.Printf("== %s: %d\n", cls, len(xs))
+			if cls == "dropped" || cls == "swallowed" || cls == "unknown" {
+				for _, x := range xs {
+					fmt.Println("   ", x)
+				}
+			}
+		}
+		return
 	}
 	if *dump != "" {
 		props.Dump(p, *dump)
@@ -192,7 +220,8 @@ func main() {
 				code = 2
 			}
 		}()
-		fn(p, r)
+		_ = fn
+		props.RunProperty(*prop, p, r)
 		return -1
 	}()
 	if code == 2 {
